@@ -498,6 +498,7 @@ func main() {
 	registerSpec(r)
 	registerViews(r)
 	registerCensus(r)
+	registerPool(r)
 	if r.Replayed() {
 		return
 	}
@@ -684,6 +685,9 @@ func main() {
 			}
 		}
 	}
+
+	// 6b. the writer and the pool as state: interleaved lines, failing writers, nested String()
+	poolCases(g)
 
 	// 7. String/FastLog of views and table entries: exact text against the model's call lists, then the
 	//    no-panic oracle over the remaining views
